@@ -238,6 +238,9 @@ def compare(argv, inc, cln, inc_root, cln_root, pre_digest=None, compare_outputs
     cmd = argv[0]
     if inc.timeout or cln.timeout:
         return [{"kind": "timeout", "detail": f"inc={inc.timeout} cln={cln.timeout}", "cls": "harness"}]
+    if inc.panic and cln.panic:
+        # both twins crash alike: the incremental build adds nothing here (the crash itself is C11's matter)
+        return []
     if inc.panic:
         mm.append({"kind": "panic", "detail": "incremental twin panicked: " + " | ".join(inc.err.splitlines()[-4:]), "cls": cmd})
     if cln.panic:
